@@ -321,7 +321,13 @@ func (f *Frame) callStatic(callee *ssa.Function, args []string, argVals []ssa.Va
 			return callOut{reach, f.symbolicResults(callee.Signature, st, reach, callee.Name()), st}
 		}
 	}
-	if c := e.P.contractFor(callee); c != nil && !(c.Inline && len(callee.Blocks) > 0) && !(e.unit.Key() == c.Key() && false) {
+	expand := false
+	for _, x := range e.unit.Expand {
+		if x == callee.Name() {
+			expand = true
+		}
+	}
+	if c := e.P.contractFor(callee); c != nil && !(c.Inline && len(callee.Blocks) > 0) && !expand {
 		var names []string
 		for _, p := range callee.Params {
 			names = append(names, p.Name())
